@@ -7,7 +7,7 @@ META = {
     "driver_id": "Edit",
     "coq_targets": ["Props/C11.vo", "Extract/Extract_Edit.vo"],
     "technique": 'Coq invariant / refinement proofs over the executable edit-machine model + step-by-step differential correspondence of the extracted model with the implementation + direct oracle on the implementation',
-    "level_text": 'Theorems (closed under the global context): C11_delete_edge, C11_add_edge (forced or not), C11_swap, C11_update_attrs and C11_step_edge_ops: on every state satisfying W_dict and W_forest a refused call returns exactly the state it was given (Leibniz equality on the whole model state: graph, attributes, array, lookups, history, refresh log); for the swap this includes that none of its four nested edits can be refused after an earlier one was applied. C11_delete_node / C11_delete_node_errors (on a well-formed state every error of UserDeleteNode - pixels without an array or outside it, unknown node - returns exactly the state it was given), C11_add_node / C11_add_node_refusals (every error of UserAddNode is one of its six refusals, each raised before the first sub-edit: graph, array, features, history, refresh log, counters and lineage lookup equal, the track lookup equal up to the order inside the entry that get_track_neighbors sorts), C11_edge_calls. C11_paint_partial (a refused stroke returns the state equal up to the order inside one track-lookup entry, for every refusal except the rolled-back one). PARTIAL: the rolled-back refusal of a stroke (non-forced, new label over a foreign node, nested UserAddNode refused) is covered only for the array (C07_paint_error_restores); for it the check rests on the differential correspondence (an Err of the model carries the mutated state, compared field by field with the implementation after the raise) and the deep before/after oracle on the implementation (about 30% refused calls, malformed stream included).',
+    "level_text": 'Theorems (closed under the global context): C11_delete_edge, C11_add_edge (forced or not), C11_swap, C11_update_attrs and C11_step_edge_ops: on every state satisfying W_dict and W_forest a refused call returns exactly the state it was given (Leibniz equality on the whole model state: graph, attributes, array, lookups, history, refresh log); for the swap this includes that none of its four nested edits can be refused after an earlier one was applied. C11_delete_node / C11_delete_node_errors (on a well-formed state every error of UserDeleteNode - pixels without an array or outside it, unknown node - returns exactly the state it was given), C11_add_node / C11_add_node_refusals (every error of UserAddNode is one of its six refusals, each raised before the first sub-edit: graph, array, features, history, refresh log, counters and lineage lookup equal, the track lookup equal up to the order inside the entry that get_track_neighbors sorts), C11_edge_calls. C11_paint (EVERY refused stroke, the rolled-back one included, returns - once the caller restored the painted pixels - a well-formed state observably equal to the original, with history, refresh log, counters and feature table literally equal and both lookups equal as sets; insertion order and unregistered attribute values of re-created nodes may differ, the documented caveat of C01); C11_user_actions_are_generated. Beyond the theorems the check rests on the differential correspondence (an Err of the model carries the mutated state, compared field by field with the implementation after the raise) and the deep before/after oracle on the implementation (about 30% refused calls, malformed stream included).',
     "level_note": 'Trusted: Coq kernel, extraction (ExtrOcamlBasic only), OCaml driver drv_Edit.ml, Python harness and oracles. Modelled, not verified: networkx DiGraph dict semantics, numpy indexing, skimage regionprops (symbolic: value = function of key, mask, spacing), psygnal. The theorems are about the hand-written model coq/Model/Edit.v; the tie to /repo is the step-by-step differential execution of the extracted model against the implementation on every run.',
     "design_ref": "DESIGN.md section 9 (C11)",
     "assumptions": ['the caller does not pass a lineage id to UserAddNode (outside its documented domain)', 'track_id and lineage_id features stay enabled during editing sessions', 'labels/ids are positive; times are frame indices within the array'],
@@ -23,6 +23,12 @@ def pre_build(ctx):
     ok, msg = translate_history.regenerate()
     if not ok:
         raise RuntimeError("translator refused action_history.py: %s" % msg)
+    # the composite user actions: re-translate user_actions/*.py (Gen/UserActions_gen.v)
+    import translate_user_actions
+
+    translate_user_actions.regenerate(repo=str(__import__("common").REPO))
+    if not translate_user_actions.LAST.get("ok"):
+        raise RuntimeError("translator refused user_actions/*.py: %s" % translate_user_actions.LAST.get("msg"))
 
 
 def run(ctx):
